@@ -100,14 +100,34 @@ def run_cmd(bindir, argv, maxcpu, batch, gomax, trace=None, timeout=120):
         return 124, b"", b"TIMEOUT"
 
 
-def trace_term(path, limit=4000):
-    ev = []
+def trace_terms(path, limit=6000):
+    """one trace per pool (byte slices: R/G, annotations: RA/GA) -> [(pool name, Gallina term, events)]"""
+    ev = {"slices": [], "annotations": []}
     for l in open(path):
         p = l.split()
-        if len(p) == 4 and p[0] in "RG":
-            ev.append("P%s %s %s" % (p[0], p[1], p[2]))
-    n = len(ev)
-    return "[" + "; ".join(ev[:limit]) + "]%N", min(n, limit), ev[:limit]
+        if len(p) == 4 and p[0] in ("R", "G"):
+            ev["slices"].append("P%s %s %s" % (p[0], p[1], p[2]))
+        elif len(p) == 4 and p[0] in ("RA", "GA"):
+            ev["annotations"].append("P%s %s %s" % (p[0][0], p[1], p[2]))
+    return [(k, "[" + "; ".join(v[:limit]) + "]%N", v[:limit]) for k, v in ev.items() if v]
+
+
+def py_pool_check(ev):
+    """python twin of C05.Model.pool_check, only used to point at the rejected event in a replay file"""
+    pool = []
+    for i, e in enumerate(ev):
+        k, h, d = e.split()
+        h, d = int(h), int(d)
+        if k == "PR":
+            if any(x[1] == d for x in pool):
+                return i, "DoubleRecycle"
+            pool.insert(0, (h, d))
+        else:
+            if (h, d) in pool:
+                pool.remove((h, d))
+            elif any(x[0] == h for x in pool):
+                return i, ("HeaderModifiedInPool" if d == 0 else "LiveBufferHandedOut")
+    return None
 
 
 def run(ctx, broken):
@@ -178,21 +198,26 @@ def _run(ctx, broken, d):
                 continue
             break
     # trace validation through the Coq model
-    terms, nev = [], 0
+    terms, nev, tinfo = [], 0, []
     for (name, c, b, g, tr) in traces:
-        t, n, ev = trace_term(tr)
-        terms.append(t)
-        nev += n
+        for (pool, t, ev) in trace_terms(tr):
+            terms.append(t)
+            tinfo.append((name, c, b, g, pool, ev))
+            nev += len(ev)
     if terms:
         bad, err = ctx.correspond("pooltraces", "From Coq Require Import NArith List. Import ListNotations.\nFrom OBI.C05 Require Import Model.", terms, shard=4)
         if bad is None:
             broken.append(dict(kind="correspondence", detail=err))
         else:
-            for i in bad:
-                name, c, b, g, tr = traces[i]
-                t, n, ev = trace_term(tr)
-                ctx.violation("c05_pooltrace_%s" % name, dict(property="C05", kind="pool-trace-rejected-by-model", command=name, max_cpu=c, batch_size=b,
-                              gomaxprocs=g, events=ev[:400], note="the ownership validator (C05.Model.pool_check) rejects this real get/recycle trace: a buffer was recycled twice or a live buffer was handed out"))
+            for i in bad[:3]:
+                name, c, b, g, pool, ev = tinfo[i]
+                where = py_pool_check(ev)
+                k = where[0] if where else 0
+                ctx.violation("c05_pooltrace_%s_%s" % (name, pool), dict(property="C05", kind="pool-trace-rejected-by-model", command=name, pool=pool,
+                              max_cpu=c, batch_size=b, gomaxprocs=g, rejected_event_index=k, verdict=where[1] if where else "rejected by the Coq validator",
+                              events_up_to_rejection=ev[max(0, k - 30):k + 1],
+                              note="the ownership validator (C05.Model.pool_check, evaluated by vm_compute) rejects this real get/recycle trace: "
+                                   "a buffer was recycled twice, a live buffer was handed out, or a header sitting in the pool was modified by its former owner"))
     ctx.cov["traces_validated_against_impl"] = len(terms)
     ctx.cov["trace_events"] = nev
     # thorough: race-detector builds on a reduced grid
